@@ -80,9 +80,8 @@ DEVIATIONS = {
     "oob_ok": ("H_DelIndex", dict(HttpSet="idx", MaxHttp=2)),
     "unknown_key_404": ("H_Key", dict(HttpSet="key", MaxHttp=2)),
 }
-QUICK_DEVS = ["last_prefix", "apply_twice", "no_error_reply", "split_fields", "cap_off_by_one", "del_off_by_one", "neg_wraps",
-              "key_prefix_match"]
-FREE = dict(MaxReads=6)
+QUICK_DEVS = ["last_prefix", "apply_twice", "no_error_reply", "split_fields", "cap_off_by_one", "del_off_by_one", "neg_wraps"]
+FREE = dict(MaxReads=3)
 WITNESSES = {      # non-guarantee -> constants of a configuration in which TLC must reach it
     "Merged": dict(ScriptSet="merge", **FREE), "MergedSilentOk": dict(ScriptSet="merge", **FREE),
     "MergedOneReply": dict(ScriptSet="merge", **FREE),
@@ -95,8 +94,7 @@ WITNESSES = {      # non-guarantee -> constants of a configuration in which TLC 
     "NotFoundNoResponse": dict(HttpSet="idx", MaxHttp=1),
     "UnknownKeyOk": dict(HttpSet="key", MaxHttp=1), "PostRouteRefused": dict(HttpSet="key", MaxHttp=1),
 }
-QUICK_WITS = ["MergedSilentOk", "FragmentApplied", "Truncated", "EmptyToken", "PrefixHandler", "NonNumericDeletesFirst",
-              "NegativeNoResponse", "NotFoundNoResponse"]
+QUICK_WITS = ["MergedSilentOk", "FragmentApplied", "Truncated", "EmptyToken", "NonNumericDeletesFirst", "NotFoundNoResponse"]
 
 
 SMALL_JVM = "-XX:TieredStopAtLevel=1 -XX:ParallelGCThreads=2 -XX:CICompilerCount=1"
@@ -121,8 +119,8 @@ def model_check(ctx):
     ctx.specdir()
     # (a) the guarantees hold
     if q:
-        good = [("mc_lock", C(**LOCK)),
-                ("mc_pair", C(Cap=8, ScriptSet="pair", MaxReads=3, HttpSet="few", MaxHttp=1)),
+        good = [("mc_lock", C(HttpSet="few", MaxHttp=1, **LOCK)),
+                ("mc_pair", C(Cap=8, ScriptSet="pair", MaxReads=3)),
                 ("mc_merge", C(Cap=20, ScriptSet="merge", MaxReads=2)),
                 ("mc_long", C(Cap=12, ScriptSet="long", MaxReads=2)),
                 ("mc_space", C(Cap=16, ScriptSet="space", MaxReads=2)),
@@ -213,6 +211,12 @@ def concretise(ctx, cases):
         def sub(s):
             return s.replace("UUUUUU", tag).replace("PPPPP", p1).replace("QQQQQ", p2) if isinstance(s, str) else s
         steps = [{k: sub(v) for k, v in st.items()} for st in c["steps"]]
+        # a cut may fall inside a place holder: substitute in the whole stream, then cut at the same offsets
+        ws = [st for st in c["steps"] if st["op"] == "w"]
+        whole, pos = sub("".join(st["data"] for st in ws)), 0
+        for st, orig in zip([x for x in steps if x["op"] == "w"], ws):
+            st["data"] = whole[pos:pos + len(orig["data"])]
+            pos += len(orig["data"])
         out.append(dict(id=cid, fam=c["fam"], pre=[sub(p) for p in c["pre"]], steps=steps))
     return out
 
@@ -256,6 +260,9 @@ def join(recs, errs):
         if e == "done":
             info["other_log_lines"] = r.get("other_log_lines")
             break
+        if e == "abort":
+            info["aborted_at"] = r["id"]
+            continue
         if e == "fatal":
             raise Machinery("driver: %s" % r["why"])
         if e == "skip":
@@ -316,6 +323,9 @@ def validate_all(ctx, blocks, chunks, tag="tr"):
     return sum(n for n, _ in res), [x for _, rj in res for x in rj]
 
 
+ENV_SIGS = ("read-is-not-the-whole-write", "admin-connection-stalls")
+
+
 def classify(block, idx):
     r = block[idx]
     e = r["ev"]
@@ -325,7 +335,7 @@ def classify(block, idx):
     if e == "read":
         sends = [x for x in block[:idx] if x["ev"] == "send"]
         if sends and sends[-1]["solo"] and len(sends[-1]["data"]) <= CAP and r["text"] != sends[-1]["data"].strip():
-            return "read-is-not-the-whole-write len=%d" % len(sends[-1]["data"])
+            return "read-is-not-the-whole-write"
         return "read-is-not-a-piece-of-the-stream-of-at-most-%d-bytes" % CAP
     if e == "reply":
         return "wrong-reply got=%s text=%s" % (r["cls"], sig_text(prev["text"]) if prev else "-")
@@ -393,21 +403,26 @@ def run(ctx):
         ctx.sample(dict(crash=crash["tail"][-400:]))
         return
     blocks, info = join(recs, errs)
-    if len(blocks) != len(cases):
+    if len(blocks) != len(cases) and "aborted_at" not in info:
         raise Machinery("driver recorded %d cases of %d" % (len(blocks), len(cases)))
     nacc, rej = validate_all(ctx, blocks, ctx.pick(4, 4))
-    # a rejected case is run once more, alone, in a fresh process
-    confirmed = []
-    if rej:
-        again = [byid[b[0]["id"]] for b, _ in rej]
+    # Two kinds of rejection rest on an assumption about the environment (a small write to an idle loopback connection
+    # arrives in one piece; 20 s are enough for an answer): those cases are run once more in a fresh process and
+    # reported only if they are rejected again in the same way.  Every other rejection is a statement about what the
+    # server made of the reads it logged itself and needs no second run.
+    confirmed, unsure = [], []
+    for b, i in rej:
+        s = classify(b, i)
+        (unsure if s.startswith(ENV_SIGS) else confirmed).append((b, i, s))
+    if unsure:
+        again = [byid[b[0]["id"]] for b, _, _ in unsure]
         recs2, crash2 = run_driver(ctx, again, banner, "confirm")
         if crash2:
             raise Machinery("the driver died while the rejected cases were run again; %s" % crash2["tail"][-1500:])
         blocks2, _ = join(recs2, errs)
         _, rej2 = validate(ctx, blocks2, tag="confirm", own_dir="spec_confirm")
         sig2 = {b[0]["id"]: classify(b, i) for b, i in rej2}
-        for b, i in rej:
-            s = classify(b, i)
+        for b, i, s in unsure:
             if sig2.get(b[0]["id"]) == s:
                 confirmed.append((b, i, s))
             else:
@@ -455,7 +470,7 @@ def selftest(ctx, good, strict=True):
                 T[k] = T[k][1:]
                 return
     probe("snapshot_entry_missing", lambda r: r["ev"] == "snap" and any(r["T"][k] for k in ("bl", "rw", "rt", "agg")), snap_mut)
-    probe("http_status", lambda r: r["ev"] == "http" and r["st"] == 404, lambda b, i: b[i].update(st=200))
+    probe("http_status", lambda r: r["ev"] == "http" and r["q"]["m"] == "DELETE" and r["st"] == 200, lambda b, i: b[i].update(st=0))
     probe("http_nonnumeric_refused", lambda r: r["ev"] == "http" and r["q"]["m"] == "DELETE" and r["q"]["idx"] == "x" and r["st"] == 200,
           lambda b, i: b[i].update(st=404))
     probe("sent_byte_changed", lambda r: r["ev"] == "send" and r["data"].startswith("delRoute k"),
@@ -532,6 +547,9 @@ def coverage(ctx, cases, blocks, nacc, fam_sizes, info):
                         obs["merged"].append(dict(read=t[:120], reply=b[k + 1].get("cls")))
                 if t and t not in [x.strip() for x in cmds] and not inner:
                     split += 1
+                    k = b.index(r)
+                    if b[k + 1].get("cls") == "ok" and len(obs["fragment_applied"]) < 3 and c["fam"] != "whole":
+                        obs["fragment_applied"].append(dict(sent=[x for x in cmds][:2], read=sig_text(t)))
                 if "" in t.split(" ")[1:]:
                     empty_tok += 1
             for s in ws:
@@ -593,6 +611,6 @@ def coverage(ctx, cases, blocks, nacc, fam_sizes, info):
         "imperatives.Apply is modelled for addBlack, addRewriter, addRoute sendAllMatch/sendFirstMatch, delRoute, modRoute, "
         "addDest and any unknown first word; other texts (addAgg, grafanaNet ..., regular expressions with metacharacters, "
         "quotes) are outside the fragment and never generated",
-        "every rejected case is run again in a fresh process and reported only if it is rejected again with the same signature"]
+        "a case rejected because a Read did not take a whole small write, or because a wait did not end, is run again in a fresh process and reported only if it is rejected again in the same way"]
     cov["trusted_base"] = ["TLC", "harness/admx driver (records only)", "reply classification and place-holder substitution in "
                            "checks/xadmin.py", "kernel loopback TCP", "package log of the standard library (one Write per line)"]
